@@ -1721,4 +1721,331 @@ theorem holds_model (i : Input) : holds i (model i) = true := by
   exact ⟨shape_model _ _, h _ clause_stale, h _ clause_reentry, h _ clause_result, h _ clause_clean, h _ clause_junk,
     h _ clause_bounded, clearOk_model _ _ idle_init⟩
 
+/-! # The property theorems -/
+
+/-- **C15 (result).**  A run that is not refused returns / raises exactly the declarative `expected sc`: the
+function's own value or exception, `TimeoutError`, or `NoResultError` — whatever ran on this spinner before. -/
+theorem C15_result (sc : Scen) (w0 : W) (hidle : Idle w0) (hj : w0.sp.junk = []) :
+    (runStep sc w0).2.result = expected sc := by
+  rw [(runStep_ran sc w0 hidle hj).1]
+  exact (run_facts sc w0 hidle).result
+
+/-- `f` returned a value / raised: that is the result, whatever else was scheduled. -/
+theorem C15_result_sync (sc : Scen) (w0 : W) (hidle : Idle w0) (hj : w0.sp.junk = []) :
+    (∀ v, sc.term = .ret v → (runStep sc w0).2.result = .value v) ∧
+    (∀ e, sc.term = .raise e → (runStep sc w0).2.result = .raised e) ∧
+    (∀ r, sc.term = .deferred → syncFire sc = some r → (runStep sc w0).2.result = r) := by
+  rw [C15_result sc w0 hidle hj]
+  refine ⟨fun v h => ?_, fun e h => ?_, fun r h hs => ?_⟩ <;> simp [expected, syncRes, h, *]
+
+/-- `f` returned an unfired Deferred and asked the reactor to stop while it ran: `NoResultError`. -/
+theorem C15_result_stopped_in_f (sc : Scen) (w0 : W) (hidle : Idle w0) (hj : w0.sp.junk = [])
+    (hs : syncRes sc = none) (hstop : syncStop sc = true) : (runStep sc w0).2.result = .noresult := by
+  rw [C15_result sc w0 hidle hj]
+  simp [expected, hs, hstop]
+
+/-- the reactor's call order on (time, scheduling index) -/
+def Before (t i t' i' : Nat) : Prop := t < t' ∨ (t = t' ∧ i < i')
+
+/-- `winner` finds the decisive call that is first in the reactor's call order.  (`off` = index of the
+head of `cs` in the whole scheduling sequence.) -/
+theorem winner_first_aux : ∀ (cs : List (Nat × Kind)) (off : Nat) (best : Option (Nat × Res)) (t : Nat) (r : Res) (i : Nat),
+    cs[i]? = some (t, .decisive r) →
+    (∀ j t' r', cs[j]? = some (t', .decisive r') → j ≠ i → Before t (off + i) t' (off + j)) →
+    (∀ tb rb, best = some (tb, rb) → t < tb) →
+    winner cs best = some (t, r)
+  | [], _, _, _, _, i, h, _, _ => by simp at h
+  | (t0, k) :: rest, off, best, t, r, 0, h, hothers, hbest => by
+      simp only [List.getElem?_cons_zero, Option.some.injEq, Prod.mk.injEq] at h
+      obtain ⟨rfl, rfl⟩ := h
+      -- the head is the winner: everything later is not strictly earlier
+      have hrest : ∀ (rest : List (Nat × Kind)) (o : Nat), (∀ (j : Nat) (t' : Nat) (r' : Res), rest[j]? = some (t', Kind.decisive r') → t0 ≤ t') →
+          winner rest (some (t0, r)) = some (t0, r) := by
+        intro rest
+        induction rest with
+        | nil => intro _ _; rfl
+        | cons c rest ih =>
+          intro o hle
+          obtain ⟨tc, kc⟩ := c
+          cases kc with
+          | decisive rc =>
+            have := hle 0 tc rc (by simp)
+            have hn : ¬ tc < t0 := by omega
+            simp only [winner, hn, if_false]
+            exact ih o (fun j t' r' hj => hle (j + 1) t' r' (by simpa using hj))
+          | stop => rw [winner_skip _ _ _ _ (by intro r; simp)]; exact ih o (fun j t' r' hj => hle (j + 1) t' r' (by simpa using hj))
+          | other => rw [winner_skip _ _ _ _ (by intro r; simp)]; exact ih o (fun j t' r' hj => hle (j + 1) t' r' (by simpa using hj))
+      have hle : ∀ (j : Nat) (t' : Nat) (r' : Res), rest[j]? = some (t', Kind.decisive r') → t0 ≤ t' := by
+        intro j t' r' hj
+        have := hothers (j + 1) t' r' (by simpa using hj) (by omega)
+        rcases this with h | ⟨h, _⟩ <;> omega
+      cases best with
+      | none => simp only [winner]; exact hrest rest off hle
+      | some b =>
+        obtain ⟨tb, rb⟩ := b
+        have := hbest tb rb rfl
+        simp only [winner, this, if_true]
+        exact hrest rest off hle
+  | (t0, k) :: rest, off, best, t, r, i + 1, h, hothers, hbest => by
+      have h' : rest[i]? = some (t, Kind.decisive r) := by simpa using h
+      have hothers' : ∀ (j : Nat) (t' : Nat) (r' : Res), rest[j]? = some (t', Kind.decisive r') → j ≠ i → Before t (off + 1 + i) t' (off + 1 + j) := by
+        intro j t' r' hj hne
+        have := hothers (j + 1) t' r' (by simpa using hj) (by omega)
+        simpa [Before, Nat.add_assoc, Nat.add_comm 1] using this
+      cases k with
+      | decisive r0 =>
+        -- the head is decisive but comes later in call order than the winner: it must be due strictly later
+        have hb := hothers 0 t0 r0 (by simp) (by omega)
+        have ht : t < t0 := by rcases hb with h | ⟨_, h⟩ <;> omega
+        cases best with
+        | none =>
+          simp only [winner]
+          exact winner_first_aux rest (off + 1) _ t r i h' hothers' (by intro tb rb hb; cases hb; exact ht)
+        | some b =>
+          obtain ⟨tb, rb⟩ := b
+          have := hbest tb rb rfl
+          simp only [winner]
+          apply winner_first_aux rest (off + 1) _ t r i h' hothers'
+          intro tb' rb' hb'
+          split at hb' <;> cases hb' <;> omega
+      | stop =>
+        rw [winner_skip _ _ _ _ (by intro r; simp)]
+        exact winner_first_aux rest (off + 1) best t r i h' hothers' hbest
+      | other =>
+        rw [winner_skip _ _ _ _ (by intro r; simp)]
+        exact winner_first_aux rest (off + 1) best t r i h' hothers' hbest
+
+theorem winner_first (cs : List (Nat × Kind)) (t : Nat) (r : Res) (i : Nat)
+    (h : cs[i]? = some (t, .decisive r))
+    (hothers : ∀ j t' r', cs[j]? = some (t', .decisive r') → j ≠ i → Before t i t' j) :
+    winner cs none = some (t, r) :=
+  winner_first_aux cs 0 none t r i h (by simpa using hothers) (by intro _ _ h; cases h)
+
+/-- **C15 (result, the general asynchronous case).**  `f` returned an unfired Deferred without stopping the
+reactor.  Let the `i`-th delayed call (in scheduling order: calls made before `run`, the timeout call, calls
+made by `f`) be decisive — it fires / fails the Deferred (`r = value v / raised e`) or it is the timeout call
+(`r = timeout`) — and let it precede every other decisive call in the reactor's order `(time, index)`.  If no
+stop request is due strictly before it, its result is the result of the run: the value / the exception if the
+Deferred wins, `TimeoutError` if the timeout call wins; ties at one instant go to the call scheduled first. -/
+theorem C15_result_first (sc : Scen) (w0 : W) (hidle : Idle w0) (hj : w0.sp.junk = [])
+    (hs : syncRes sc = none) (hstop : syncStop sc = false) (i t : Nat) (r : Res)
+    (hi : (delayed sc)[i]? = some (t, .decisive r))
+    (hfirst : ∀ j t' r', (delayed sc)[j]? = some (t', .decisive r') → j ≠ i → Before t i t' j)
+    (hnostop : ∀ ts, (ts, Kind.stop) ∈ delayed sc → t ≤ ts) :
+    (runStep sc w0).2.result = r := by
+  rw [C15_result sc w0 hidle hj]
+  have hw := winner_first (delayed sc) t r i hi hfirst
+  have hns : noStopBefore t (delayed sc) = true := by
+    simp only [noStopBefore, List.all_eq_true]
+    intro c hc
+    obtain ⟨tc, kc⟩ := c
+    by_cases hk : kc = Kind.stop
+    · subst hk; simp [hnostop tc hc]
+    · simp [hk]
+  simp [expected, hs, hstop, hw, hns]
+
+/-- **C15 (result, interrupted).**  … but if a stop request is due strictly before that first decisive call,
+the run ends with `NoResultError`. -/
+theorem C15_result_stopped_first (sc : Scen) (w0 : W) (hidle : Idle w0) (hj : w0.sp.junk = [])
+    (hs : syncRes sc = none) (i t : Nat) (r : Res)
+    (hi : (delayed sc)[i]? = some (t, .decisive r))
+    (hfirst : ∀ j t' r', (delayed sc)[j]? = some (t', .decisive r') → j ≠ i → Before t i t' j)
+    (ts : Nat) (hstop : (ts, Kind.stop) ∈ delayed sc) (hlt : ts < t) :
+    (runStep sc w0).2.result = .noresult := by
+  rw [C15_result sc w0 hidle hj]
+  have hw := winner_first (delayed sc) t r i hi hfirst
+  have hns : noStopBefore t (delayed sc) = false := by
+    simp only [noStopBefore, List.all_eq_false]
+    exact ⟨(ts, Kind.stop), hstop, by simp; omega⟩
+  cases hss : syncStop sc <;> simp [expected, hs, hss, hw, hns]
+
+/-- Ties at the timeout instant follow the scheduling order: a firing scheduled *before* `run()` for the
+timeout instant precedes the timeout call and wins … -/
+theorem C15_tie_scheduled_before_run (T v : Nat) (w0 : W) (hidle : Idle w0) (hj : w0.sp.junk = []) :
+    (runStep { timeout := T, pre := [(T, .fire v)], body := [], term := .deferred } w0).2.result = .value v := by
+  rw [C15_result _ w0 hidle hj]
+  simp [expected, syncRes, syncFire, syncStop, delayed, winner, kindOf, noStopBefore]
+
+/-- … one scheduled by `f` itself comes after the timeout call: `TimeoutError` stands, the late result is
+dropped. -/
+theorem C15_tie_scheduled_by_f (T v : Nat) (w0 : W) (hidle : Idle w0) (hj : w0.sp.junk = []) :
+    (runStep { timeout := T, pre := [], body := [.later T (.fire v)], term := .deferred } w0).2.result = .timeout := by
+  rw [C15_result _ w0 hidle hj]
+  simp [expected, syncRes, syncFire, syncStop, delayed, winner, kindOf, noStopBefore, laterKind, nowAct, List.filterMap_cons]
+
+/-- A stop request at the very instant of the firing does not lose the result (calls due at the instant of
+a crash still run) … -/
+theorem C15_tie_stop_and_fire (T d v : Nat) (hd : d < T) (w0 : W) (hidle : Idle w0) (hj : w0.sp.junk = []) :
+    (runStep { timeout := T, pre := [(d, .stop)], body := [.later d (.fire v)], term := .deferred } w0).2.result = .value v := by
+  rw [C15_result _ w0 hidle hj]
+  have : ¬ T ≤ d := by omega
+  simp [expected, syncRes, syncFire, syncStop, delayed, winner, kindOf, noStopBefore, laterKind, nowAct, List.filterMap_cons, hd, this]
+
+/-- … while a stop request strictly before it does. -/
+theorem C15_stop_before_fire (T d v : Nat) (hd : d + 1 < T) (w0 : W) (hidle : Idle w0) (hj : w0.sp.junk = []) :
+    (runStep { timeout := T, pre := [(d, .stop)], body := [.later (d + 1) (.fire v)], term := .deferred } w0).2.result = .noresult := by
+  rw [C15_result _ w0 hidle hj]
+  have : ¬ T ≤ d + 1 := by omega
+  simp [expected, syncRes, syncFire, syncStop, delayed, winner, kindOf, noStopBefore, laterKind, nowAct, List.filterMap_cons, hd, this]
+
+/-- **C15 (guards, stale junk).**  While junk of an earlier run has not been cleared, `run` raises
+`StaleJunkError` and touches nothing: `f` is not called (no events), the spinner's state, the clock, the signal
+handlers and `reactor.stop` are what they were; what the caller had scheduled is still pending. -/
+theorem C15_guards_stale (sc : Scen) (w0 : W) (hidle : Idle w0) (hj : w0.sp.junk ≠ []) :
+    let o := (runStep sc w0).2
+    o.result = .stalejunk ∧ o.events = [] ∧ o.reentries = [] ∧ o.junk = w0.sp.junk ∧ o.pending = sc.pre.length ∧
+    o.sigAfter = o.sigBefore ∧ o.stopRestored = true ∧ o.running = false ∧ o.elapsed = 0 ∧
+    (runStep sc w0).1.sp = w0.sp ∧ (runStep sc w0).1.now = w0.now ∧ (runStep sc w0).1.sigs = w0.sigs := by
+  have hj' : w0.sp.junk.isEmpty = false := by cases h : w0.sp.junk <;> simp_all
+  have hS := afterPre_eq sc w0 hidle
+  have hjS : (!(afterPre sc w0).sp.junk.isEmpty) = true := by rw [afterPre_junk, hj']; rfl
+  have hw : (runStep sc w0).1 = { afterPre sc w0 with calls := [] } := by
+    unfold runStep
+    simp only []
+    split
+    · rfl
+    · rename_i h; exact absurd hjS h
+  obtain ⟨h1, _, _⟩ := runStep_refused sc w0 hidle hj'
+  rw [h1, hw, hS]
+  simp [start]
+
+/-- and a run is refused **only** then -/
+theorem C15_guards_stale_only (sc : Scen) (w0 : W) (hidle : Idle w0) (hj : w0.sp.junk = []) :
+    (runStep sc w0).2.result ≠ .stalejunk ∧ (runStep sc w0).2.result ≠ .reentry := by
+  rw [(runStep_ran sc w0 hidle hj).1]
+  exact ⟨(tj_result (run_facts sc w0 hidle).tj).1, (tj_result (run_facts sc w0 hidle).tj).2.1⟩
+
+/-- **C15 (guards, re-entry).**  Every attempt to call `Spinner.run` from inside a run (from `f` or from a
+delayed call, on the same or on a fresh spinner) raised `ReentryError` — one per executed attempt — and changed
+nothing else. -/
+theorem C15_guards_reentry (sc : Scen) (w0 : W) (hidle : Idle w0) :
+    (∀ r ∈ (runStep sc w0).2.reentries, r = .reentry) ∧
+    (runStep sc w0).2.reentries.length = ((runStep sc w0).2.events.filter (isReenterEv sc)).length ∧
+    (∀ (l : Nat) (f : Bool) (w : W), { exec l (.reenter f) w with u := w.u } = w) := by
+  have := clause_reentry sc w0 hidle
+  simp only [cReentry, Bool.and_eq_true, List.all_eq_true, beq_iff_eq, bne_iff_ne] at this
+  exact ⟨this.1.1, this.2, fun _ _ _ => rfl⟩
+
+theorem restoreFrom_get : ∀ (s : Nat) (saved cur : List Nat), cur.length = saved.length →
+    ∀ i, preserved (s + i) = true → (restoreFrom s saved cur)[i]? = saved[i]?
+  | _, [], [], _, i, _ => by simp [restoreFrom]
+  | _, [], _ :: _, h, _, _ => by simp at h
+  | _, _ :: _, [], h, _, _ => by simp at h
+  | s, x :: saved, y :: cur, h, 0, hp => by simp [restoreFrom, show preserved s = true by simpa using hp]
+  | s, x :: saved, y :: cur, h, i + 1, hp => by
+      simp only [restoreFrom, List.tail_cons, List.getElem?_cons_succ]
+      exact restoreFrom_get (s + 1) saved cur (by simpa using h) i (by simpa [Nat.add_assoc, Nat.add_comm 1 i] using hp)
+
+/-- the signals the spinner preserves are SIGINT, SIGTERM and SIGCHLD (table extracted from the code) -/
+theorem C15_preserved_signals : preserved 0 = true ∧ preserved 1 = true ∧ preserved 2 = true ∧
+    sigNames[0]? = some "SIGINT" ∧ sigNames[1]? = some "SIGTERM" ∧ sigNames[2]? = some "SIGCHLD" := by decide
+
+/-- **C15 (clean).**  After every `run` — returned or raised, refused or not: the reactor is not running, holds
+no delayed calls and no selectables, `reactor.stop` is the genuine one and every preserved signal has the
+handler it had before the call (whatever `f` or the delayed calls installed). -/
+theorem C15_clean (sc : Scen) (w0 : W) (hidle : Idle w0) :
+    Idle (runStep sc w0).1 ∧
+    (∀ s, preserved s = true → (runStep sc w0).1.sigs[s]? = w0.sigs[s]?) ∧
+    (w0.sp.junk = [] → (runStep sc w0).2.pending = 0 ∧ (runStep sc w0).2.sels = 0 ∧ (runStep sc w0).2.running = false
+      ∧ (runStep sc w0).2.stopRestored = true) := by
+  refine ⟨(runStep_link sc w0 hidle).2, ?_, ?_⟩
+  · intro s hs
+    rcases junk_cases w0.sp.junk with hj | hj
+    · have hsig : (afterPre sc w0).sigs = w0.sigs := by rw [afterPre, schedPre_eq]; rfl
+      have hjS : (!(afterPre sc w0).sp.junk.isEmpty) = false := by rw [afterPre_junk, hj]; rfl
+      have hw : (runStep sc w0).1.sigs = restoreFrom 0 w0.sigs (spinPhase sc (afterPre sc w0)).sigs := by
+        rw [← hsig]
+        unfold runStep
+        simp only []
+        split
+        · rename_i h; rw [show (!(afterPre sc w0).sp.junk.isEmpty) = true from h] at hjS; cases hjS
+        · rfl
+      rw [hw]
+      exact restoreFrom_get 0 _ _ (run_facts sc w0 hidle).sigs s (by simpa using hs)
+    · have hne : w0.sp.junk ≠ [] := by intro h; simp [h] at hj
+      rw [(C15_guards_stale sc w0 hidle hne).2.2.2.2.2.2.2.2.2.2.2]
+  · intro hj
+    rw [(runStep_ran sc w0 hidle hj).1]
+    exact ⟨rfl, rfl, rfl, rfl⟩
+
+/-- **C15 (junk).**  What a run leaves behind is exactly the recorded junk: each delayed call of the scenario
+either ran or is junk — never both, never twice; the spinner's own timeout call ran, or was cancelled because a
+result was recorded, or is junk; nothing else is junk except the selectables registered by actions that ran. -/
+theorem C15_junk_exact (sc : Scen) (w0 : W) (hidle : Idle w0) (hj : w0.sp.junk = []) :
+    let o := (runStep sc w0).2
+    (∀ l ∈ delayedLabels sc, o.junk.count (.call (.user l)) + (evLabels o).count (.user l) = 1) ∧
+    o.junk.count (.call .timeout) + (evLabels o).count .timeout + (if isOwnResult o.result = true then 1 else 0) = 1 ∧
+    (∀ l, Junk.call (.user l) ∈ o.junk → l ∈ delayedLabels sc) ∧
+    o.junk.filterMap junkSel = o.events.filterMap (selEv sc) ∧
+    (runStep sc w0).1.sp.junk = o.junk := by
+  have := clause_junk sc w0 hidle
+  simp only [cJunk, refused_false hj, Bool.false_or, Bool.and_eq_true, List.all_eq_true, beq_iff_eq] at this
+  obtain ⟨⟨⟨h1, h2⟩, h3⟩, h4⟩ := this
+  refine ⟨h1, by simpa using h2, ?_, h4, (runStep_link sc w0 hidle).1.symm⟩
+  intro l hl
+  have := h3 _ hl
+  simpa [junkKnown] using this
+
+/-- **C15 (bounded).**  A run never lasts beyond its timeout, and time does not run backwards. -/
+theorem C15_bounded (sc : Scen) (w0 : W) (hidle : Idle w0) (hj : w0.sp.junk = []) :
+    (runStep sc w0).2.elapsed ≤ sc.timeout ∧ w0.now ≤ (runStep sc w0).1.now := by
+  have hf := run_facts sc w0 hidle
+  constructor
+  · rw [(runStep_ran sc w0 hidle hj).1]
+    have := hf.now_le
+    show (spinPhase sc (afterPre sc w0)).now - w0.now ≤ sc.timeout
+    omega
+  · have hjS : (!(afterPre sc w0).sp.junk.isEmpty) = false := by rw [afterPre_junk, hj]; rfl
+    have hw : (runStep sc w0).1.now = (spinPhase sc (afterPre sc w0)).now := by
+      unfold runStep
+      simp only []
+      split
+      · rename_i h; rw [show (!(afterPre sc w0).sp.junk.isEmpty) = true from h] at hjS; cases hjS
+      · rfl
+    rw [hw]; exact hf.now_ge
+
+/-- **C15 (the loop ends).**  `reactor.run()` under `Spinner.run` always ends because the reactor was crashed
+(by the result, the timeout or a stop request) — it never runs out of things to wait for, and the fuel the
+model gives the loop suffices. -/
+theorem C15_loop_ends_by_crash (sc : Scen) (w0 : W) (hidle : Idle w0) :
+    (spinPhase sc (afterPre sc w0)).crashed = true := (run_facts sc w0 hidle).crashed
+
+/-- **C15 (histories).**  All of the above holds at every step of every history: between the steps the world is
+idle, and `clear_junk()` returns exactly the junk of the last run. -/
+theorem C15_history_idle : ∀ (steps : List Step) (w : W), Idle w →
+    ∀ (s : Step) (pre post : List Step), steps = pre ++ s :: post →
+    ∃ w' : W, Idle w' ∧ runSteps steps w = runSteps pre w ++ (step s w').2 :: runSteps post (step s w').1
+  | [], _, _, s, pre, post, h => by cases pre <;> simp at h
+  | s0 :: rest, w, hw, s, [], post, h => by
+      simp only [List.nil_append, List.cons.injEq] at h
+      obtain ⟨rfl, rfl⟩ := h
+      exact ⟨w, hw, by simp [runSteps]⟩
+  | s0 :: rest, w, hw, s, p0 :: pre, post, h => by
+      simp only [List.cons_append, List.cons.injEq] at h
+      obtain ⟨rfl, h⟩ := h
+      have hidle' : Idle (step s0 w).1 := by
+        cases s0 with
+        | run sc => exact (runStep_link sc w hw).2
+        | clearJunk => exact ⟨hw.calls, hw.sels, hw.running, hw.stopPatched⟩
+      obtain ⟨w', hw', heq⟩ := C15_history_idle rest (step s0 w).1 hidle' s pre post h
+      exact ⟨w', hw', by simp [runSteps, heq]⟩
+
+/-! ## non-vacuity: concrete histories (evaluated by the kernel) -/
+
+def resultsOf (t : Trace) : List Res := t.filterMap fun | .run o => some o.result | .cleared _ => none
+
+/-- value, timeout at a tie, stop, reuse after a failure (fix a08ec11), refusal while junk is uncleared -/
+example : resultsOf (model ⟨false, [
+    .run { timeout := 5, pre := [], body := [.later 3 (.fire 7)], term := .deferred },
+    .run { timeout := 2, pre := [], body := [.later 2 (.fire 7)], term := .deferred },
+    .clearJunk,
+    .run { timeout := 5, pre := [(1, .stop)], body := [.later 3 (.fail 4)], term := .deferred },
+    .clearJunk,
+    .run { timeout := 5, pre := [], body := [], term := .raise 9 },
+    .run { timeout := 5, pre := [], body := [.later 9 .noop], term := .ret 1 },
+    .run { timeout := 5, pre := [], body := [], term := .ret 2 }]⟩)
+  = [.value 7, .timeout, .noresult, .raised 9, .value 1, .stalejunk] := by decide
+
+example : Idle init := idle_init
+
 end TTV.Props.C15
